@@ -31,7 +31,21 @@ META = {
                   "trait types untyped/typed string, int, bool, rune, float, complex, renamed-import time.Duration, "
                   "imported reflect.Kind, local named types, other generated enums; gerror and gsort definitions), "
                   "every observation judged in Coq against the spec (error report or built package) and the model.",
-    "level_note": "Trusted: Coq 8.16.1 kernel + vm_compute; the two stdlib-only translators (validated by the "
+    "level_note": "PARTIAL. The property's main clause — every documented-valid input either makes the generator "
+                  "report an error or yields a gofmt-clean file that compiles — is NOT a theorem: "
+                  "Props/C13.v states it as the Definition C13_full_statement over the real pipeline, which no "
+                  "Gallina term defines; it is exercised by the farm only. What is proved are necessary "
+                  "conditions over tables of func headers (name, receiver, parameter/result text, enclosing "
+                  "guards) regenerated from the templates — no semantics of Go type checking, errors inside "
+                  "function bodies are invisible to them —, the rendering of basic kinds, import activation "
+                  "and the identifier scope check of the template skeleton. C13_fallback_flagged/_violation "
+                  "and C13_predict_built are sanity lemmas about the judge's own definitions, not content. "
+                  "The model's error predictions are computed in Coq from the definition the farm wrote "
+                  "(GenBuildModel.derived_shapes: gsort through the C08 tag-parser/Validate model, gerror "
+                  "embed/struct/tag options, genum trait-count / unnamed / parsable-uniqueness / case "
+                  "collision); the shape tags of the harness are used only for the shapes owned by C12, on "
+                  "which the model abstains (the specification still judges). "
+                  "Trusted: Coq 8.16.1 kernel + vm_compute; the two stdlib-only translators (validated by the "
                   "farm: a table that mispredicts a build is a disagreement); the go/types basic-kind table read "
                   "from the toolchain; hand-written method lists of json/encoding/yaml.v3/sort interfaces (checked "
                   "by the farm's compile-time assertions); the Go toolchain (go generate, gofmt, go build) as the "
@@ -62,7 +76,8 @@ def corpus_specs():
     return out
 
 
-HEADER = ("From Coq Require Import String List Bool.\nImport ListNotations.\n"
+HEADER = ("From Coq Require Import String List Bool ZArith.\nImport ListNotations.\n"
+          "From GT Require Import GSortTagModel.\n"
           "From GT Require Import Base.Verdict GenBuildModel GenBuildJudge.\n"
           "From GTgen Require Import GenTables.\nLocal Open Scope string_scope.\n")
 JUDGE = "gb_judge gen_tables gen_kinds gen_render"
@@ -77,7 +92,19 @@ def is_known(ctx, f):
                all(f.get(a) == b for a, b in fd["match"].items()) for fd in ctx.findings)
 
 
+def own_findings(ctx):
+    """entries of known_findings.d/C13.json that the merged known_findings.json does not hold yet"""
+    p = os.path.join(vlib.VERIF, "known_findings.d", "C13.json")
+    try:
+        mine = json.load(open(p)).get("findings", [])
+    except (OSError, ValueError):
+        return
+    have = {f.get("id") for f in ctx.findings if f.get("property") == "C13"}
+    ctx.findings += [f for f in mine if f.get("id") not in have]
+
+
 def run(ctx):
+    own_findings(ctx)
     ctx.trusted = TRUSTED
     ctx.assumptions = [
         "documented-valid inputs: definition files in the shapes of genum/gerror/gsort's READMEs and fixtures; "
